@@ -94,8 +94,21 @@ class Runner:
         self.case = case
         self.env = Env("\n".join(case["method"]) + "\n", t0=1000.0, dt=0.5)
         self.env.start()
-        for _ in range(case["pre_ticks"]):
+        pre = {}
+        for t, cmd in case.get("pre", []):
+            pre.setdefault(t, []).append(cmd)
+        for k in range(case["pre_ticks"]):
+            for cmd in pre.get(k, []):
+                try:
+                    self.env.user(cmd)
+                except Exception:
+                    pass
             self.env.tick()
+        for cmd in pre.get(case["pre_ticks"], []):      # requested just before the tick that runs concurrently
+            try:
+                self.env.user(cmd)
+            except Exception:
+                pass
         self.result = None
         # cancel / force name a run-log item: it is chosen from the run log as it is BEFORE the tick (the user clicks on
         # what the frontend shows), identically in the interleaved and in both serial runs
@@ -277,7 +290,7 @@ class C40(Prop):
             "paused (tick at one of 6 phase boundaries inside its body, or the request before/after its mutation) while the "
             "other thread runs; compared with the two serial orders on fresh engines; non-trivial = the pause point was "
             "reached and the other thread had to wait; distinct by canonical JSON")
-    QUICK_N = 120
+    QUICK_N = 300
     THOROUGH_N = 3000
     SHARD = 200
     TRUSTED = ["CPython's GIL and threading.Lock; pre-emption only at the wrapped phase boundaries",
@@ -304,7 +317,12 @@ class C40(Prop):
             else:
                 arg = rng.randint(0, 5)
             pause_tick = rng.random() < 0.65
-            out.append(dict(method=lines, pre_ticks=rng.randint(1, 12), req=req, arg=arg, pause_tick=pause_tick,
+            pre_ticks = rng.randint(1, 12)
+            pre = []
+            if rng.random() < 0.5:       # a Stop / Restart / Pause ... in progress when the request arrives
+                for _ in range(rng.randint(1, 2)):
+                    pre.append([max(0, pre_ticks - rng.randint(0, 2)), rng.choice(["Stop", "Restart", "Stop", "Pause", "Hold"])])
+            out.append(dict(method=lines, pre_ticks=pre_ticks, pre=pre, req=req, arg=arg, pause_tick=pause_tick,
                             pos=rng.randrange(KT) if pause_tick else rng.randrange(KR)))
         return out
 
